@@ -53,8 +53,8 @@ Theorem C19_reannounce_refuted :
                  includes sent (on_open_required c) = true).
 Proof. exact reannounce_refuted. Qed.
 
-(* what does hold, over all histories of register-resource / conn-lost /
-   reconnect events: RegisterTM is always re-announced, and the new session
+(* what does hold, over all histories of register-resource / conn-lost (session still
+   open or already closed by the peer) / reconnect (to any address) events: RegisterTM is always re-announced, and the new session
    carries everything required exactly when no resource had been registered *)
 Theorem C19_reannounce_partial : forall evs c sent,
   In (c, sent) (snd (crun cinit evs)) ->
@@ -86,8 +86,15 @@ Example C19_xid_nonvacuous :
   xid_target ex_xid = Some ex_b /\ xid_target ex_a = None.
 Proof. vm_compute. auto. Qed.
 
+(* first connection, lost with the session already closed by the peer, reconnect to
+   the SAME address (the stale entry is still recorded: count 2), a resource, lost
+   while open, reconnect to ANOTHER address: RegisterTM on each of the three sessions *)
 Example C19_reannounce_nonvacuous :
-  snd (crun cinit [CConnLost; CReconnect; CRegisterResource [x72]; CConnLost; CReconnect])
-  = [ ({| cl_resources := []; cl_connected := false |}, [RegisterTM]);
-      ({| cl_resources := [[x72]]; cl_connected := false |}, [RegisterTM]) ].
-Proof. vm_compute. reflexivity. Qed.
+  let a := [x61] in let b := [x62] in
+  let r := crun cinit [CReconnect a; CConnLost true; CReconnect a; CRegisterResource [x72];
+                       CConnLost false; CReconnect b] in
+  map snd (snd r) = [[RegisterTM]; [RegisterTM]; [RegisterTM]]
+  /\ map (fun cs => cl_server (fst cs)) (snd r) = [[]; [(a, 1)]; [(a, 1)]]
+  /\ cl_server (fst r) = [(a, 1); (b, 1)] /\ cl_all (fst r) = 1
+  /\ map (fun cs => cl_resources (fst cs)) (snd r) = [[]; []; [[x72]]].
+Proof. vm_compute. auto 6. Qed.
